@@ -492,6 +492,22 @@ pub fn emit_randomness() -> Vec<String> {
                 v.push(format!("{}:udp-sid:{:016x}", proto.short(), cc.session().client_sid));
             }
         }
+        // per-datagram randomness: the salt of a classic datagram, the 24-byte nonce of a 2022 ChaCha datagram
+        let per_datagram = match proto {
+            Proto::SsLegacy(l) => Some(l.key_len()),
+            Proto::Ss22(c) if !c.is_aes() => Some(24),
+            _ => None,
+        };
+        if let Some(n) = per_datagram {
+            let uctx = real::ClientUdpCtx::new(&cred).unwrap();
+            let mut cc = uctx.codec();
+            for _ in 0..4 {
+                let mut w = BytesMut::new();
+                if cc.encode(b"x", address.clone(), &mut w).is_ok() && w.len() >= n {
+                    v.push(format!("{}:udp-datagram:{}", proto.short(), hex(&w[..n])));
+                }
+            }
+        }
     }
     v
 }
@@ -527,6 +543,31 @@ fn freshness_and_bias(ctx: &PropCtx) {
     match &out.fail {
         Some(f) => ctx.violation(sub, &serde_json::json!({"a": a, "b": b}), f),
         None => ctx.record(sub, || serde_json::json!({"first_process": &a[..4.min(a.len())], "second_process": &b[..4.min(b.len())]}), &out),
+    }
+    // threads of one process: every worker thread of the runtime creates sessions; what one thread draws must not be what
+    // another thread draws
+    {
+        let per_thread: Vec<Vec<String>> = std::thread::scope(|sc| {
+            let hs: Vec<_> = (0..6).map(|_| sc.spawn(emit_randomness)).collect();
+            hs.into_iter().map(|h| h.join().unwrap_or_default()).collect()
+        });
+        let mut out = Outcome::new();
+        out.weight = per_thread.iter().map(|v| v.len()).sum::<usize>() as u64;
+        out.nontrivial("six-threads-of-one-process");
+        out.label("cross-thread");
+        let mut seen: HashMap<&String, usize> = HashMap::new();
+        'outer: for (t, v) in per_thread.iter().enumerate() {
+            for x in v {
+                if let Some(prev) = seen.insert(x, t) {
+                    out.fail("freshness/randomness-repeats-across-threads", format!("threads {} and {} of one process both produced {}", prev, t, x));
+                    break 'outer;
+                }
+            }
+        }
+        match &out.fail {
+            Some(f) => ctx.violation(sub, &serde_json::json!({"per_thread": per_thread}), f),
+            None => ctx.record(sub, || serde_json::json!({"threads": 6, "values_per_thread": per_thread[0].len(), "first": &per_thread[0][..3.min(per_thread[0].len())]}), &out),
+        }
     }
     // crude bias screen: per-bit frequency over 4096 salts of one cipher must be within [0.4, 0.6] (12 sigma)
     real::set_clock(Some(T0));
